@@ -86,7 +86,14 @@ def u_mutate(mode='Add', start=(0,), F=3):
     def post(eng, c, r):
         return membership_obligations('', r, algebra(mode, start_set(start, F), bs, F), F)
 
-    return Unit(f'mutate[{mode},start={start},F={F}]', composite, lambda eng: ([], None), post, base=[], inputs={f'sat{i}': bs[i] for i in range(F)}, replay=None, int_only=False,
+    def rep(mm):
+        # any boolean pattern over three faces with orthogonal normals (+z, +y, +x) is realised by the public `facing` criterion:
+        # direction = sum of +-axis, angle pi/2 (the angles are 54.7 or 125.3 degrees)
+        axes = [(0, 0, 1), (0, 1, 0), (1, 0, 0)]
+        nd = [sum((1 if mm[f'sat{i}'] else -1) * axes[i][k] for i in range(3)) for k in range(3)]
+        return {'vertices': VERTS, 'faces': FACES[:F], 'start': list(start), 'ref_vertices': None, 'ops': [{'kind': 'facing', 'normal': nd, 'angle': 1.5707963267948966, 'mode': mode}]}
+
+    return Unit(f'mutate[{mode},start={start},F={F}]', composite, lambda eng: ([], None), post, base=[], inputs={f'sat{i}': bs[i] for i in range(F)}, replay=('face_select', rep) if F == 3 else None, int_only=False,
                 loop_budget=64, bounds={'faces': F, 'start selection': str(start), 'predicate': 'arbitrary boolean per face', 'hash iteration order': 'every order (forked)'},
                 assumptions=['HashSet insert / remove / retain / contains / iteration by contract (mirsym/ext_std.py)'])
 
@@ -175,7 +182,13 @@ def j_select(o, rep, out):
     used = sorted({v for i in got for v in Fc[i]})
     if len(sv) != len(used):
         return 'mesh from selection: vertices other than the used ones'
-    for k, i in enumerate(sorted(got)):
+    order = a.get('create') or sorted(got)
+    if len(sf) != len(order):
+        return 'mesh from selection: wrong number of triangles'
+    used = sorted({v for i in order for v in Fc[i]})
+    if len(sv) != len(used):
+        return 'mesh from selection: vertices other than the used ones'
+    for k, i in enumerate(order):
         for j in range(3):
             if np.abs(sv[sf[k][j]] - V[Fc[i][j]]).max() > 0:
                 return 'mesh from selection: triangle coordinates / winding changed'
@@ -279,12 +292,16 @@ def u_create(sel=(0, 2), F=4):
         return obs
 
     inp = {f'v{i}{"xyz"[k]}': V[i][k] for i in range(len(VERTS)) for k in range(3)}
-    return Unit(f'create_from_indices[sel={sel}]', composite, lambda eng: ([], None), post, base=[z3.And(c >= -B, c <= B) for v in V for c in v], inputs=inp, replay=None, loop_budget=64,
+    def rep(mm):
+        return {'vertices': [[mm[f'v{i}{"xyz"[k]}'] for k in range(3)] for i in range(len(VERTS))], 'faces': FACES[:F], 'start': sorted(sel), 'ref_vertices': None, 'ops': [], 'create': list(sel)}
+
+    base = [z3.And(c >= -B, c <= B) for v in V for c in v]
+    return Unit(f'create_from_indices[sel={sel},F={F}]', composite, lambda eng: ([], None), post, base=base, inputs=inp, replay=('face_select', rep), loop_budget=64,
                 bounds={'faces': F, 'selection': str(sel), 'vertex coordinates': 'symbolic', 'hash iteration order': 'every order (forked)'},
                 assumptions=['Mesh::new / TriMesh::new store vertices and indices (dependency contract)'])
 
 
-JUDGES = {'facing': j_select, 'near_mesh': j_select}
+JUDGES = {'facing': j_select, 'near_mesh': j_select, 'mutate': j_select, 'create_from_indices': j_select}
 
 _STARTS3 = [(), (0,), (1, 2), (0, 1, 2)]
 UNITS = {
@@ -292,7 +309,7 @@ UNITS = {
              [('u_facing', {'mode': m, 'start': s, 'nd': nd}) for (m, s, nd) in (('Add', 'None', (0, 0, 1)), ('Remove', 'All', (0, 0, 1)), ('Keep', (0, 1, 3), (0, 1, 0)), ('Add', (2,), (0, 0, -1)))] +
              [('u_near', {'mode': m, 'start': s, 'all_points': ap, 'angle': an}) for (m, s, ap, an) in (('Add', (), True, True), ('Add', (3,), True, True), ('Remove', 'All', True, True), ('Keep', (0, 1, 3), False, True),
                                                                                                        ('Add', (), False, False), ('Keep', (0, 1, 3), True, False))] +
-             [('u_create', {'sel': s}) for s in ((0, 2), (3,), (1, 0, 3))],
+             [('u_create', {'sel': s}) for s in ((0, 2), (3,), (1, 0, 3))] + [('u_create', {'sel': (2, 0, 1), 'F': 3}), ('u_create', {'sel': (1, 3, 0, 2), 'F': 4})],
     'thorough': [('u_mutate', {'mode': m, 'start': tuple(s), 'F': F}) for F in (3, 4) for m in ('Add', 'Remove', 'Keep') for k in range(F + 1) for s in itertools.combinations(range(F), k)] +
                 [('u_facing', {'mode': m, 'start': s, 'nd': nd}) for m in ('Add', 'Remove', 'Keep') for s in ('None', 'All', (0, 1), (2, 3)) for nd in ((0, 0, 1), (0, 1, 0), (-1, 0, 0))] +
                 [('u_near', {'mode': m, 'start': s, 'all_points': ap, 'angle': an, 'land': ld}) for m in ('Add', 'Remove', 'Keep') for s in ((), 'All', (0, 3), (1, 2)) for ap in (True, False) for an in (True, False)
